@@ -16,18 +16,28 @@ Bytes == IF Quick THEN {0, 1, 3, 15, 16, 62, 63, 64, 127, 128, 251, 255} ELSE 0.
 Bytes3 == IF Quick THEN Bytes ELSE {0, 1, 2, 3, 4, 15, 16, 17, 31, 32, 47, 48, 62, 63, 64, 65, 95, 96, 127, 128, 129, 191, 192, 223, 224, 239, 240, 247, 248, 251, 252, 253, 254, 255}
 \* A Z a z 0 9 - _ + / = . @ [ ` { : , space * 0x80 0xff 0x01 M
 A24 == <<65, 90, 97, 122, 48, 57, 45, 95, 43, 47, 61, 46, 64, 91, 96, 123, 58, 44, 32, 42, 128, 255, 1, 77>>
-A8 == <<65, 122, 57, 45, 47, 61, 46, 255>>
-A40 == A24 \o <<66, 89, 98, 121, 49, 56, 33, 34, 35, 127, 254, 10, 92, 124, 126, 63>>
-Texts == UNION { [1..n -> {A24[i] : i \in 1..Len(A24)}] : n \in 1..(IF Quick THEN 3 ELSE 4) }
+A8 == <<65, 122, 57, 45, 47, 61, 46, 193>>
+\* high-bit bytes whose low seven bits are alphabet characters or '=' (0xC1 'A', 0xE1 'a', 0xB0 '0', 0xAB '+', 0xAF '/', 0xAD '-', 0xDF '_', 0xBD '=')
+HighTwins == <<193, 225, 176, 171, 175, 173, 223, 189>>
+\* every byte value except NUL
+AllBytes == [i \in 1..255 |-> i]
+A32 == A24 \o HighTwins
+A40 == A32 \o <<66, 89, 98, 121, 49, 56, 33, 34>>
+Texts == UNION { [1..n -> {A32[i] : i \in 1..Len(A32)}] : n \in 1..3 }
          \cup [1..5 -> {A8[i] : i \in 1..Len(A8)}]
 
-Batch(dir, len, prefix, alpha) == [op |-> "CodecBatch", dir |-> dir, len |-> len, prefix |-> prefix, alpha |-> alpha]
+Batch(dir, len, prefix, alpha) == [op |-> "CodecBatch", dir |-> dir, len |-> len, prefix |-> prefix, alpha |-> alpha, suffix |-> <<>>]
+BatchS(dir, len, prefix, alpha, suffix) == [op |-> "CodecBatch", dir |-> dir, len |-> len, prefix |-> prefix, alpha |-> alpha, suffix |-> suffix]
+\* a valid text with ONE position ranging over every byte value
+Valid8 == <<81, 85, 74, 68, 90, 71, 86, 109>>       \* "QUJDZGVm"
+OnePos(n) == { BatchS("dec", n, SubSeq(Valid8, 1, i - 1), AllBytes, SubSeq(Valid8, i + 1, n)) : i \in 1..n }
 EncBatches == { Batch("enc", 0, <<>>, <<>>), Batch("enc", 1, <<>>, <<>>) }
          \cup { Batch("enc", 2, <<h>>, <<>>) : h \in 0..255 }
          \cup { Batch("enc", 3, <<h>>, <<>>) : h \in (IF Quick THEN {0, 77, 251, 255} ELSE 0..255) }
          \cup { Batch("enc", 4, <<h, g>>, <<>>) : h \in {0, 255}, g \in {0, 128, 255} }
-DecBatches == { Batch("dec", n, <<>>, A24) : n \in {0, 1, 2, 3} }
-         \cup { Batch("dec", 4, <<A24[i]>>, A24) : i \in 1..Len(A24) }
+DecBatches == { Batch("dec", n, <<>>, A32) : n \in {0, 1, 2, 3} }
+         \cup { Batch("dec", 4, <<A32[i]>>, A32) : i \in 1..Len(A32) }
+         \cup UNION { OnePos(n) : n \in {2, 3, 4, 6, 7, 8} }
          \cup { Batch("dec", n, <<>>, A8) : n \in {5, 6} }
          \cup { Batch("dec", 7, <<A8[i]>>, A8) : i \in 1..Len(A8) }
          \cup { Batch("dec", 8, <<A8[i], A8[j]>>, A8) : i \in 1..Len(A8), j \in {1, 6} }
